@@ -10,6 +10,7 @@ python3 tools/gen_simd_ast.py > build/gen_simd_ast.log   # C05: Generated/SimdAs
 python3 tools/gen_crt_ast.py > build/gen_crt_ast.log     # C04: Generated/CrtAst.lean (clang AST of gmp.hpp's GMP constructor / poly2mpz / mpz2poly, ~2 s)
 python3 tools/gen_set_ast.py > build/gen_set_ast.log     # C09/C12/C15: Generated/SetAst.lean (clang AST of the setters / samplers, per-coefficient pieces, ~3 s)
 python3 tools/gen_prng_ast.py > build/gen_prng_ast.log     # C19/C13/C18: Generated/PrngAst.lean (clang AST of randombytes.cpp / fastrandombytes.cpp as step functions, <1 s)
+python3 tools/gen_gauss_ast.py > build/gen_gauss_ast.log   # C10/C11: Generated/GaussAst.lean (clang AST of FastGaussianNoise.hpp: cmp + sampling path of getNoise, <2 s)
 python3 tools/gen_footprint.py > build/gen_footprint.log   # C17: Generated/Footprint.lean (valgrind-lackey, ~15 s)
 cd lean
 lake build NflVerif driver
